@@ -330,6 +330,8 @@ def rope_slice(interp, rope, lo, hi):
 
 
 def getitem(interp, obj, idx):
+    if isinstance(obj, UnmodelledV) or isinstance(idx, UnmodelledV):
+        raise Unsupported("use of an unmodelled library object: subscript")
     if isinstance(obj, BytesV):
         if isinstance(idx, SliceV):
             if idx.step is not None:
